@@ -955,6 +955,14 @@ class Concrete:
   def concretize(self, sym, lo, hi):
     return int(sym)
 
+  def decide(self, cond):
+    c = cond if isinstance(cond, bool) else z3.simplify(zbool(cond))
+    if c is True or (not isinstance(c, bool) and z3.is_true(c)):
+      return True
+    if c is False or z3.is_false(c):
+      return False
+    raise HarnessError(f"condition not ground in concrete mode: {c}")
+
   def assume(self, c):
     c = z3.simplify(zbool(c))
     if z3.is_false(c):
